@@ -6,10 +6,14 @@ P  spec/xml/XmlStream.tla  for ANY input: Attribute tokens only inside a tag, a 
                            an error report; for generated documents: expected token list, EOF at the end, agreement of the three reports
                            (generator, xml.Lexer, encoding/xml)
 T  spec/xml/XmlTrace.tla   judges the traces of harness/suites/xmldoc (generated documents in several spellings + seeded mutations)
+I  spec/xml/XmlImpl.tla    xml/lex.go function by function over character classes: TLC checks I => P on every class string within a
+                           bound and predicts the token list of each, replayed on the code (checks/c11impl.py; drift is evidence only)
 """
 import concurrent.futures
 import json
 import os
+
+import c11impl
 
 WS = (9, 10, 13, 32)
 NAMED = ("StartTag", "StartTagPI", "EndTag", "Attribute", "Text", "Comment", "CDATA", "DOCTYPE")
@@ -251,6 +255,8 @@ def run(ck):
                 f.write(open(out).read())
         fails += one_round(ck, cases2, "deep", 2, 1)
         ck.cov["constants"]["simulate"] = dict(cfg="Gen_deep.cfg", processes=SIM_PROCS, traces_each=SIM_TRACES, depth=400, **BOUNDS["Gen_deep.cfg"])
+    # growth: the implementation-shaped model (I => P, differential replay; traces the property rejects come back as candidates)
+    fails += c11impl.run(ck, thorough)
     judge(ck, fails, "thorough" if thorough else "quick")
     ck.cov["rule"] = ("every document derivable from the XML 1.0 productions transcribed in XmlDoc.tla within the bounds (constructs, variations, "
                       "pieces per body), each spelled several times (plain spelling + seeded spellings of names, white space, text, pieces) and "
